@@ -202,6 +202,52 @@ func checkPurity(c purityCase) (kind string, msg string) {
 			}
 		}
 	}
+	// (4) the original tree again, from a working directory that holds decoys: an entry spelled like every import path of the
+	// programs (strings, os, helper.tsh, sub/x.tsh ...) with other content. Imports are resolved beside the importing file and
+	// in std, never in the directory the process happens to run in.
+	if c.Relocate {
+		decoys := filepath.Join(root, "cwd-with-decoys")
+		os.MkdirAll(decoys, 0o755)
+		for _, p := range c.Progs {
+			for _, content := range p.Files {
+				for _, m := range reImportPath.FindAllStringSubmatch(content, -1) {
+					rel := filepath.Clean(m[1])
+					if filepath.IsAbs(rel) || strings.HasPrefix(rel, "..") || rel == "." {
+						continue
+					}
+					// (a path that collides with an earlier decoy - a file where a directory is needed - is skipped)
+					dp := filepath.Join(decoys, rel)
+					if os.MkdirAll(filepath.Dir(dp), 0o755) == nil {
+						os.WriteFile(dp, []byte("func Decoy() int {\n\treturn 0\n}\nprint(\"decoy\")\n"), 0o644)
+					}
+				}
+			}
+		}
+		w, err := run.StartWorker()
+		if err != nil {
+			return "harness", err.Error()
+		}
+		defer w.Kill()
+		for i := range c.Progs {
+			resp, outcome := w.Do(run.WReq{Path: paths[i], Targets: []string{"bash", "batch"}, WantScript: true, Chdir: decoys}, 30*time.Second)
+			if outcome != "ok" {
+				return "cwd", fmt.Sprintf("%s on program %d run from a directory with decoys", outcome, i)
+			}
+			for _, rr := range resp.Results {
+				prev, ok := model[fmt.Sprintf("%d/%s", i, rr.Target)]
+				if !ok {
+					continue
+				}
+				obs := "OK " + rr.Script
+				if rr.Verdict != "accept" {
+					obs = "ERR " + strings.ReplaceAll(rr.Err, dirA, "{DIR}")
+				}
+				if prev != obs {
+					return "cwd", fmt.Sprintf("program %d (%s), target %s: run from a working directory that holds files spelled like the import paths, the result differs\n--- elsewhere\n%s\n--- from the directory with decoys\n%s", i, c.Progs[i].Kind, rr.Target, clip(prev), clip(obs))
+				}
+			}
+		}
+	}
 	return "", ""
 }
 
@@ -226,7 +272,7 @@ const c14Other = "func Name() string {\n\treturn \"o\"\n}\nfunc Twice(a int) int
 
 func TestC14(t *testing.T) {
 	r, e := start(t, "C14",
-		"a pool of 3-6 programs per case (generated single-file programs, multi-file programs with single/grouped imports of local files and of std, a rejected program, a program using every helper routine, a program importing two files with identical bytes) and a random history of 6-30 Transpile calls over programs x {bash, batch} on ONE transpiler object (fresh converter per call), during which imported files of the multi-file programs are rewritten in place between two contents; then the same programs in freshly started processes (new map iteration seeds) and from a relocated copy of the tree with another cwd. Oracle: every observation of the same (content, target) is byte-identical (error texts modulo the directory). Non-trivial = histories in which a (program, target) recurs after at least two other transpilations including one of the other target and a failing one; distinct by history + sources.",
+		"a pool of 3-6 programs per case (generated single-file programs, multi-file programs with single/grouped imports of local files and of std, a rejected program, a program using every helper routine, a program importing two files with identical bytes) and a random history of 6-30 Transpile calls over programs x {bash, batch} on ONE transpiler object (fresh converter per call), during which imported files of the multi-file programs are rewritten in place between two contents; then the same programs in freshly started processes (new map iteration seeds) from a relocated copy of the tree with another cwd, and from a working directory that holds decoy files spelled like every import path of the programs (strings, os, helper.tsh ...). Oracle: every observation of the same (content, target) is byte-identical (error texts modulo the directory). Non-trivial = histories in which a (program, target) recurs after at least two other transpilations including one of the other target and a failing one; distinct by history + sources.",
 		[]string{"self-comparison is the property here: history, process and location must be irrelevant", "process instances are sampled (quick: 2 per case, thorough: 6), not enumerated"})
 	defer r.Flush()
 	gcfg := gen.Cfg{MaxStmts: 14, MaxDepth: 3, ExprDepth: 3, Funcs: true, MaxFuncs: 3, Slices: true, StrOps: true, LoopBudget: 8, IO: true, Panics: true, ErrSpell: true, BareExpr: true}
